@@ -7,12 +7,14 @@ CONSTANTS
   GenBias = FALSE
   FixRenew = TRUE
   PlanIdx = {"p1"}
-  Buyers = {"c"}
   Durs = {1}
   WithRelay = FALSE
+  Consumers = {"c1"}
+  ThirdParty = {}
+  WithDrain = FALSE
   PriceVar = {0}
 INIT Init
 NEXT Next
-INVARIANTS TypeOK PlanAvailable NoPanic CuBounded LeftPositive
+INVARIANTS TypeOK PlanAvailable NoPanic CuBounded LeftPositive RefsCoverHolders HeldVersionsExist
 CHECK_DEADLOCK FALSE
 VIEW NoHistView
